@@ -248,4 +248,148 @@ theorem run_inv_partial (ops : List Op) : ∀ (s s' : Net), Inv s → Admissible
       exact ih s1 s' (step_inv_partial s s1 op hs ha.1 h1) (ha.2 s1 h1) h
     · cases h
 
+/-- F8 — `reattach_interface(…, proxy_nic=…)` with a proxy nic different from the server nic *always* leaves
+    the registries inconsistent: the client interface refers to the proxy interface's netconfig, but no
+    netconfig lists it (the code's own TODO).  Hence `reattach_inv_partial` cannot be extended to `p ≠ none`. -/
+theorem reattach_proxy_breaks (s s' : Net) (c r pi : Nat) (hs : Inv s) (hc : c < s.nIf) (hpi : pi ≠ r)
+    (h : reattach s c r (some pi) = .ok s') : ¬ Inv s' :=
+  fun hs' => reattach_proxy_not_pinv s s' c r pi hs.1 hc hpi h hs'.1
+
+/-! ## Non-vacuity and witnesses (concrete networks, evaluated by the kernel) -/
+
+def holds (e : Except Err Net) (p : Net → Bool) : Bool :=
+  match e with
+  | .ok s => p s
+  | .error _ => false
+
+theorem holds_ok (e : Except Err Net) (p : Net → Bool) (h : holds e p = true) : ∃ s, e = .ok s ∧ p s = true := by
+  cases e with
+  | error x => simp [holds] at h
+  | ok s => exact ⟨s, rfl, h⟩
+
+def isOk (e : Except Err Net) : Bool := holds e (fun _ => true)
+
+def failsWith (e : Except Err Net) (x : Err) : Bool :=
+  match e with
+  | .ok _ => false
+  | .error y => decide (y = x)
+
+/-- interface `i` is listed under its address by its own, registered netconfig -/
+def listedB (s : Net) (i : Nat) : Bool :=
+  match (s.iface i).nc with
+  | some n => s.reg.any (fun p => p.2 == n) && (s.nc n).ifs.any (fun p => p.1 == (s.iface i).ip && p.2 == i)
+  | none => false
+
+theorem inv_listedB (s : Net) (i : Nat) (hs : Inv s) (hi : i < s.nIf) : listedB s i = true := by
+  obtain ⟨n, hn⟩ := Option.isSome_iff_exists.1 (hs.2 i hi)
+  obtain ⟨⟨k, hk⟩, h2, _⟩ := hs.1.placed i n hi (by omega) hn
+  simp only [listedB, hn, Bool.and_eq_true, List.any_eq_true, beq_iff_eq]
+  exact ⟨⟨(k, n), hk, rfl⟩, ⟨_, h2, rfl, rfl⟩⟩
+
+/-- executable form of `FreshAt` -/
+def freshB (s : Net) (r : Nat) : Bool :=
+  match (s.iface r).nc with
+  | none => true
+  | some tn =>
+    match freeOffsets (s.nc tn).range with
+    | [] => true
+    | o :: _ => (List.range s.nIf).all (fun j => (s.iface j).ip != (s.nc tn).netIp + o)
+
+theorem freshB_sound (s : Net) (r : Nat) (h : freshB s r = true) : FreshAt s r := by
+  intro tn o l htn hfree j hj
+  simp only [freshB, htn, hfree, List.all_eq_true, List.mem_range, bne_iff_ne] at h
+  exact h j hj
+
+/-- the network of `selftests/isolation/test_vm_network.py`: vm1 = 10.1.0.1/16, 172.17.0.1/16;
+    vm2 = 10.2.0.1/16, 172.18.0.1/16; default range 100-200 -/
+def inpA : List Iface :=
+  [⟨167837697, 4294901760, none, 100, 200, none⟩, ⟨2886795265, 4294901760, none, 100, 200, none⟩,
+   ⟨167903233, 4294901760, none, 100, 200, none⟩, ⟨2886860801, 4294901760, none, 100, 200, none⟩]
+
+theorem inpA_distinct : (inpA.map (·.ip)).Nodup := by decide
+theorem inpA_noShadow : NoShadow inpA := by unfold NoShadow; decide
+
+/-- `build_inv_partial`, `reattach_inv_partial`, `run_inv_partial` are not vacuous: the selftest network is built,
+    an admissible allocate/reattach/reattach sequence runs through, and the invariant holds afterwards -/
+theorem nonvacuous_registry : ∃ s s', build inpA = .ok s ∧ Inv s ∧
+    AdmissibleRun s [.alloc 3, .reattach 0 3 none, .reattach 2 1 none] ∧
+    run s [.alloc 3, .reattach 0 3 none, .reattach 2 1 none] = .ok s' ∧ Inv s' := by
+  have hc : holds (build inpA) (fun s =>
+      holds (step s (.alloc 3)) (fun s1 => freshB s1 3 && holds (step s1 (.reattach 0 3 none)) (fun s2 =>
+        freshB s2 1 && isOk (step s2 (.reattach 2 1 none))))) = true := by decide +kernel
+  obtain ⟨s, hb, h1⟩ := holds_ok _ _ hc
+  obtain ⟨s1, hs1, h2⟩ := holds_ok _ _ h1
+  simp only [Bool.and_eq_true] at h2
+  obtain ⟨s2, hs2, h3⟩ := holds_ok _ _ h2.2
+  simp only [Bool.and_eq_true] at h3
+  obtain ⟨s3, hs3, _⟩ := holds_ok _ _ h3.2
+  obtain ⟨hinv, _, hn⟩ := build_inv_partial inpA s inpA_distinct inpA_noShadow hb
+  have hinv1 : Inv s1 := step_inv_partial s s1 (.alloc 3) hinv trivial hs1
+  have hn1 : s1.nIf = 4 := by
+    simp only [step] at hs1
+    split at hs1
+    · rename_i a t hal
+      simp only [Except.ok.injEq] at hs1; subst hs1
+      rw [(allocAt_pinv s _ 3 a hinv.1 hal).2.1, hn]; rfl
+    · cases hs1
+  have ha1 : Admissible s1 (.reattach 0 3 none) := ⟨rfl, by omega, by omega, freshB_sound _ _ h2.1⟩
+  have hinv2 := reattach_inv_partial s1 s2 0 3 hinv1 (by omega) (by omega) (freshB_sound _ _ h2.1) hs2
+  have ha2 : Admissible s2 (.reattach 2 1 none) :=
+    ⟨rfl, by rw [hinv2.2]; omega, by rw [hinv2.2]; omega, freshB_sound _ _ h3.1⟩
+  have hadm : AdmissibleRun s [.alloc 3, .reattach 0 3 none, .reattach 2 1 none] := by
+    refine ⟨trivial, ?_⟩
+    intro t ht; rw [hs1] at ht; cases ht
+    refine ⟨ha1, ?_⟩
+    intro t ht; rw [hs2] at ht; cases ht
+    exact ⟨ha2, fun _ _ => trivial⟩
+  have hrun : run s [.alloc 3, .reattach 0 3 none, .reattach 2 1 none] = .ok s3 := by
+    simp only [run, hs1, hs2, hs3]
+  exact ⟨s, s3, hb, hinv, hadm, hrun, run_inv_partial _ s s3 hinv hadm hrun⟩
+
+/-- `reattach_proxy_breaks` is not vacuous: the call of `test_reattach_interface`
+    (`reattach_interface(client, server, proxy_nic="b1")`) succeeds on the selftest network -/
+theorem witness_proxy_nic : ∃ s s', build inpA = .ok s ∧ Inv s ∧ reattach s 0 3 (some 2) = .ok s' ∧ ¬ Inv s' := by
+  have hc : holds (build inpA) (fun s => isOk (reattach s 0 3 (some 2))) = true := by decide +kernel
+  obtain ⟨s, hb, h1⟩ := holds_ok _ _ hc
+  obtain ⟨s', hs', _⟩ := holds_ok _ _ h1
+  obtain ⟨hinv, _, hn⟩ := build_inv_partial inpA s inpA_distinct inpA_noShadow hb
+  exact ⟨s, s', hb, hinv, hs', reattach_proxy_breaks s s' 0 3 2 hinv (by rw [hn]; decide) (by decide) hs'⟩
+
+/-- 10.1.0.100/16 (inside the default range 100-200 of its own netconfig) and 10.2.0.1/16 -/
+def inpP : List Iface :=
+  [⟨167837796, 4294901760, none, 100, 200, none⟩, ⟨167903233, 4294901760, none, 100, 200, none⟩]
+
+/-- `reattach_inv_partial` needs `FreshAt`: the allocator hands out 10.1.0.100 although the statically
+    configured interface 0 has it; interface 0 is overwritten in the netconfig's `interfaces`. -/
+theorem witness_pool_collision : ∃ s s', build inpP = .ok s ∧ Inv s ∧ reattach s 1 0 none = .ok s' ∧ ¬ Inv s' := by
+  have hc : holds (build inpP) (fun s => holds (reattach s 1 0 none) (fun s' => !listedB s' 0 && s'.nIf == 2)) = true := by
+    decide +kernel
+  obtain ⟨s, hb, h1⟩ := holds_ok _ _ hc
+  obtain ⟨s', hs', h2⟩ := holds_ok _ _ h1
+  simp only [Bool.and_eq_true, Bool.not_eq_true', beq_iff_eq] at h2
+  obtain ⟨hinv, _, _⟩ := build_inv_partial inpP s (by decide) (by unfold NoShadow; decide) hb
+  refine ⟨s, s', hb, hinv, hs', ?_⟩
+  intro hinv'
+  have := inv_listedB s' 0 hinv' (by rw [h2.2]; decide)
+  rw [h2.1] at this; cases this
+
+/-- 10.0.0.5/16 first, then 10.1.0.1/8: both subnets have the network address 10.0.0.0 -/
+def inpN : List Iface :=
+  [⟨167772165, 4294901760, none, 100, 200, none⟩, ⟨167837697, 4278190080, none, 100, 200, none⟩]
+
+/-- `build_inv_partial` needs `NoShadow`: the construction succeeds for distinct addresses, but the /8 netconfig
+    replaces the /16 one under the key 10.0.0.0 and interface 0 is left in an unregistered netconfig.
+    (In the opposite order `can_add_interface` raises `IndexError`.) -/
+theorem witness_nested_subnet : (inpN.map (·.ip)).Nodup ∧ ¬ NoShadow inpN ∧
+    (∃ s, build inpN = .ok s ∧ ¬ Inv s) ∧ failsWith (build inpN.reverse) .indexError = true := by
+  refine ⟨by decide, ?_, ?_, by decide +kernel⟩
+  · unfold NoShadow; decide
+  · have hc : holds (build inpN) (fun s => !listedB s 0 && s.nIf == 2) = true := by decide +kernel
+    obtain ⟨s, hb, h2⟩ := holds_ok _ _ hc
+    simp only [Bool.and_eq_true, Bool.not_eq_true', beq_iff_eq] at h2
+    refine ⟨s, hb, ?_⟩
+    intro hinv
+    have := inv_listedB s 0 hinv (by rw [h2.2]; decide)
+    rw [h2.1] at this; cases this
+
 end I2N.Props.C18
